@@ -53,6 +53,13 @@ pub mod debug_report {
   }
 }
 
+/// Verification hooks (guarded, add-only): compiled only with `--cfg excsn_fibre_verif`.
+#[cfg(excsn_fibre_verif)]
+pub mod verif {
+  pub use crate::init::verif::{Front, Router};
+  pub use crate::roller::verif::Roller;
+}
+
 // Re-export key public types for easier use by library consumers.
 pub use error::{Error, Result};
 pub use error_handling::{InternalErrorReport, InternalErrorSource};
